@@ -330,8 +330,38 @@ class World:
                     if y is b: return True
                     if y not in seen and y._status_ == 'marked_to_delete': seen.append(y); todo.append(y)
             return False
+        def find_obj(E3, pk):
+            return next((x for x in cache.objects if isinstance(x, E3) and rawpk(x) == tuple(pk)), None)
+        def cascade_partners(x):
+            out = []
+            for a2 in x.__class__._attrs_:
+                if not a2.reverse or not a2.cascade_delete: continue
+                rv = a2.reverse; E3 = rv.entity
+                if not a2.is_collection and a2.columns:
+                    c3 = sqlite3.Cursor(con)
+                    c3.execute('SELECT %s FROM "%s" WHERE %s' % (', '.join('"%s"' % c for c in a2.columns), x.__class__._table_,
+                               ' AND '.join('"%s" = ?' % c for c in x.__class__._pk_columns_)), list(rawpk(x)))
+                    row = c3.fetchone()
+                    if row is not None and not any(v is None for v in row):
+                        y = find_obj(E3, row)
+                        if y is not None: out.append(y)
+                elif rv.columns and not rv.is_collection:
+                    c3 = sqlite3.Cursor(con)
+                    c3.execute('SELECT %s FROM "%s" WHERE %s' % (', '.join('"%s"' % c for c in E3._pk_columns_), E3._table_,
+                               ' AND '.join('"%s" = ?' % c for c in rv.columns)), list(rawpk(x)))
+                    for row in c3.fetchall():
+                        y = find_obj(E3, row)
+                        if y is not None: out.append(y)
+            return out
+        def cascade_closure(x):
+            seen = []; todo = [x]
+            while todo:
+                z = todo.pop()
+                for y in cascade_partners(z):
+                    if y not in seen and y is not x and y._status_ == 'marked_to_delete': seen.append(y); todo.append(y)
+            return seen
         found = 0
-        res = {'all_deleted': True, 'strict_family': True, 'all_stale': True, 'all_in_cycle': True}    # all_in_cycle: every blocker is on a reference cycle with p OR cascades one-to-one to p
+        res = {'all_deleted': True, 'strict_family': True, 'all_stale': True, 'all_in_cycle': True}    # all_in_cycle: every blocker is on a reference cycle with p OR p lies in the blocker's cascade closure
         for E2 in self.E:
             for attr in E2._attrs_with_columns_:
                 if not attr.reverse or attr.reverse.entity is not p.__class__: continue
@@ -351,25 +381,10 @@ class World:
                     if not stale: res['all_stale'] = False
                     # a live cascade child of p should have been queued before p by Entity._delete_, unless the rows form a cycle
                     if not (deleted and (stale or cyc or not attr.reverse.cascade_delete)): res['strict_family'] = False
-                    # is p a one-to-one CASCADE TARGET of the blocker (the blocker's deletion cascades to p, so _delete_ queued p
-                    # first) - read from the schema and the database row(s) of that relationship
-                    target = False
-                    if deleted:
-                        for a2 in o2.__class__._attrs_:
-                            if a2.is_collection or not a2.reverse or a2.reverse.is_collection or not a2.cascade_delete: continue
-                            if a2.reverse.entity is not p.__class__ and not isinstance(p, a2.py_type): continue
-                            if a2.columns:
-                                c3 = sqlite3.Cursor(con)
-                                c3.execute('SELECT %s FROM "%s" WHERE %s' % (', '.join('"%s"' % c for c in a2.columns), E2._table_,
-                                           ' AND '.join('"%s" = ?' % c for c in E2._pk_columns_)), list(pk2))
-                                row = c3.fetchone()
-                                if row is not None and tuple(row) == rawpk(p): target = True
-                            elif a2.reverse.columns:
-                                c3 = sqlite3.Cursor(con)
-                                c3.execute('SELECT %s FROM "%s" WHERE %s' % (', '.join('"%s"' % c for c in a2.reverse.columns), p.__class__._table_,
-                                           ' AND '.join('"%s" = ?' % c for c in p.__class__._pk_columns_)), list(rawpk(p)))
-                                row = c3.fetchone()
-                                if row is not None and tuple(row) == pk2: target = True
+                    # is p in the CASCADE CLOSURE of the blocker (the blocker's deletion cascades to p, directly or through other
+                    # cascade_delete relationships, so _delete_ queued p before the blocker)?  Read from the schema and the
+                    # database rows of the cascading relationships, through objects this flush deletes
+                    target = deleted and p in cascade_closure(o2)
                     if not (cyc or target): res['all_in_cycle'] = False
         res['found'] = found
         if not found: res['all_deleted'] = res['strict_family'] = res['all_in_cycle'] = res['all_stale'] = False
